@@ -499,6 +499,24 @@ impl World {
         self.record("OPeekOut".into(), format!("BBytes {}", wrap(coqfmt::bytes_rle(&ob))));
     }
 
+    /// buffered_writes_high_water for the channel events that follow
+    pub fn set_high(&mut self, high: usize) {
+        if self.dead || self.torn {
+            return;
+        }
+        self.probe.set_high_water(high);
+        self.record(format!("OSetHigh {}", high), "BUnit".into());
+    }
+
+    /// observe channels_need_repoll
+    pub fn need(&mut self) {
+        if self.dead || self.torn {
+            return;
+        }
+        let b = self.probe.need_repoll();
+        self.record("ONeed".into(), format!("BSent {}", coqfmt::b(b)));
+    }
+
     pub fn phase(&self) -> u8 {
         if self.dead || self.torn {
             return 9;
